@@ -19,7 +19,11 @@ Each was confirmed by `tools/confirm_mutant.sh`: the repository's suite stays at
 mutant, the demonstration fails with it and passes without it, and `./check <id> quick` is run with
 the patch applied to /repo (reverted straight afterwards). {n_first} were caught by the check as it stood;
 the others exposed a gap, the check was strengthened (what was added is in the `needs` column and in
-section 0), and they are caught now. No mutant is left uncaught.
+section 0), and they are caught now. No mutant is left uncaught. `tools/check_seeded.sh` re-validates
+all of them against the current /repo and the current checks (patch applies, suite green with it,
+check exits 1); patches that later `fix:` commits had made unappliable were rebased (the original is
+kept as `patch.original.diff`), and one mutant that a later fix neutralised was moved to
+`/verif/seeded-retired/`.
 
 | seeded mutant | property | what it needs in order to manifest | checks run with the mutant | caught by the first version |
 |---------------|----------|-------------------------------------|----------------------------|-----------------------------|
